@@ -12,14 +12,14 @@ from . import node as nodemod
 class Scenario:
     """an opened connection ready for traffic"""
 
-    def __init__(self, role, seed, watchdog=50, send_buffer=None, preempt=None):
+    def __init__(self, role, seed, watchdog=50, send_buffer=None, preempt=None, apps=None, cfg_override=None):
         nodemod.ensure_installed()
         import bromelia.setup as bs
         self.saved_buf = bs.SEND_BUFFER_MAXIMUM_SIZE
         if send_buffer is not None:
             bs.SEND_BUFFER_MAXIMUM_SIZE = send_buffer
         self.bs = bs
-        self.n = nodemod.Node(role, seed=seed, watchdog=watchdog)
+        self.n = nodemod.Node(role, seed=seed, watchdog=watchdog, apps=apps, cfg_override=cfg_override)
         self.s = self.n.s
         self.role = role
         if preempt:
